@@ -431,8 +431,14 @@ def carrier_events(ctx, ev, blobs, env, alg):
                     res = 'raised'
                 else:
                     res = 'truthy' if kk.verify(u, s) else 'falsy'
+                # the same certification examined as one of SEVERAL signatures: the key verified with itself (all self-signatures and bindings);
+                # a truthy answer would vouch for the altered identity too
+                try:
+                    res_all = 'truthy' if (s is not None and kk.verify(kk)) else 'falsy'
+                except Exception:
+                    res_all = 'raised'
             except Exception:
-                res = 'raised'
+                res = res_all = 'raised'
         try:
             asubj = sigs.subj_cert(blobs, blob, kfp, newuid)
         except Exception:
@@ -440,6 +446,7 @@ def carrier_events(ctx, ev, blobs, env, alg):
         ev.append({'k': 'attempt', 'osig': blobs.add(kp[si][2]), 'osubj': sigs.subj_cert(blobs, kblob, kfp, uidbody), 'signer': env['primary'],
                    'asig': blobs.add(kp[si][2]) if res != 'raised' else 0, 'asubj': asubj, 'vkb': blobs.add(blob), 'result': res,
                    'case': 'cert-inside-key', 'mut': label, 'field': 'carrier', 'expect_semantic': newuid != uidbody})
+        ev.append(dict(ev[-1], result=res_all, asig=blobs.add(kp[si][2]) if res_all != 'raised' else 0, mut=label + ' [whole key verified with itself]'))
     try_key('unmodified', uidbody)
     for b in (range(len(uidbody) * 8) if not ctx.quick else sorted(ctx.rng.sample(range(len(uidbody) * 8), 40))):
         m = bytearray(uidbody)
